@@ -3,8 +3,10 @@
 package verifsim
 
 import (
+	"bytes"
 	"fmt"
 	"runtime"
+	"strings"
 	"sync"
 	"testing"
 	"time"
@@ -31,6 +33,7 @@ type simTask struct {
 	// resumed but neither parked nor finished: it is blocked on a lock held
 	// by a parked task and goes on by itself once the lock is released
 	background bool
+	goid       int64
 }
 
 type TaskSched struct {
@@ -63,7 +66,8 @@ func (s *TaskSched) Go(id int, fn func()) {
 	ready := make(chan struct{})
 	go func() {
 		s.mu.Lock()
-		s.byGoid[goid()] = t
+		t.goid = goid()
+		s.byGoid[t.goid] = t
 		s.mu.Unlock()
 		close(ready)
 		<-t.resume
@@ -143,18 +147,58 @@ func (s *TaskSched) Run() {
 	}
 }
 
-// await waits for t to reach a yield point or finish. A task that is neither
-// after plenty of scheduler yields is blocked on a lock.
+// await waits for t to reach a yield point or finish. Whether a task that has
+// done neither is blocked on a lock (held by a parked task) or merely still
+// busy is read off the runtime's own goroutine state, not guessed from elapsed
+// time: a slow machine must not turn a busy task into a "blocked" one, because
+// the scheduler would then let a second task run beside it.
 func (s *TaskSched) await(t *simTask) (string, bool) {
-	for i := 0; i < 20000; i++ {
+	for i := 1; ; i++ {
 		select {
 		case site := <-t.parked:
 			return site, true
 		default:
 			runtime.Gosched()
 		}
+		if i%2000 == 0 {
+			st := goroutineState(t.goid)
+			if strings.HasPrefix(st, "sync.Mutex") || strings.HasPrefix(st, "sync.RWMutex") || strings.HasPrefix(st, "semacquire") {
+				// make sure it has not just moved on
+				select {
+				case site := <-t.parked:
+					return site, true
+				default:
+				}
+				return "", false
+			}
+		}
 	}
-	return "", false
+}
+
+var stackBuf = make([]byte, 1<<20)
+
+// goroutineState returns the wait state the runtime reports for a goroutine
+// ("running", "runnable", "sync.Mutex.Lock", "chan send (durable), synctest bubble 1", ...).
+func goroutineState(id int64) string {
+	n := runtime.Stack(stackBuf, true)
+	hdr := []byte(fmt.Sprintf("goroutine %d [", id))
+	b := stackBuf[:n]
+	i := bytes.Index(b, hdr)
+	for i > 0 && b[i-1] != '\n' {
+		j := bytes.Index(b[i+1:], hdr)
+		if j < 0 {
+			return ""
+		}
+		i += 1 + j
+	}
+	if i < 0 {
+		return ""
+	}
+	rest := b[i+len(hdr):]
+	if k := bytes.IndexByte(rest, ']'); k >= 0 {
+		return string(rest[:k])
+	}
+	return ""
 }
 
 // ---------------------------------------------------------------------------
